@@ -72,6 +72,8 @@ def standard_check(mod, tier, seed, replay=None):
     known_hits = {}
     notes = {}
     cases, results = [], []
+    # full .vo build first (incremental; -k so that Model/ and Check/ are usable even if a proof is broken)
+    ok_make, make_log = core.make_proofs()
     try:
         core.build_harness()
         pre = getattr(mod, "prepare", None)
@@ -173,9 +175,8 @@ def standard_check(mod, tier, seed, replay=None):
         reported += 1
 
     # proofs
-    ok_make, log = core.make_proofs(clean=(tier == "thorough" and os.environ.get("VERIF_NO_CLEAN") != "1" and False))
     pr = core.check_props(pid) if ok_make else {"ok": False, "obligations": 0, "discharged": 0,
-                                                "assumptions": [], "theorems": [], "log": log}
+                                                "assumptions": [], "theorems": [], "log": make_log}
     bad = core.forbidden_constructs()
     if bad:
         pr["ok"] = False
